@@ -399,6 +399,54 @@ End Weight.
    delegations of layer k (all addressed to its issuer), the delegations of layer 0 cite
    nothing; every delegation is valid and offers the one capability `rc`, from which the
    claimed capability `c` derives unchanged.  The widths of the layers are arbitrary. *)
+Section Layers.
+  Variable U : link -> option token.
+  Variable C : ctx.
+  Variable L : nat -> list dlg.
+
+  Definition cites (d : dlg) (ps : list dlg) : Prop :=
+    exists t, tok U d = Some t /\ aligned U t (proofs_view U C d t) = ps.
+  Definition below (k : nat) : list dlg := match k with O => [] | S k' => L k' end.
+
+  Hypothesis Hcites : forall k d, In d (L k) -> cites d (below k).
+
+  (* verifications made by a failing Authorize for a match on a delegation that cites layer k-1 *)
+  Fixpoint acost (k : nat) : N :=
+    match k with O => 0 | S k' => N.of_nat (length (L k')) * (1 + acost k') end.
+
+  (* the path weight of such a proof set is exactly that number: the general bound of
+     section Weight is attained (see access_layered_fail) *)
+  Section LayeredWeight.
+    Hypothesis Hvw : forall cwp k d, In d (L k) -> vw U C cwp d (L k) = 1.
+    Hypothesis Hnc : forall k d, In d (L k) -> ncaps U C d = 1.
+
+    Lemma sumN_ext_in {A} (f g : A -> N) l : (forall x, In x l -> f x = g x) -> sumN f l = sumN g l.
+    Proof.
+      induction l as [|x l IH]; intros H; cbn [sumN]; [reflexivity|].
+      rewrite (H x (or_introl eq_refl)), (IH (fun y Hy => H y (or_intror Hy))). reflexivity.
+    Qed.
+
+    Lemma aw_layered cwp : forall k n d, (k < n)%nat -> cites d (below k) -> aw U C cwp n d = acost k.
+    Proof.
+      induction k as [|k IH]; intros n d Hn [t [T A]]; (destruct n as [|n]; [lia|]);
+        cbn [aw]; rewrite T, A; cbn [below]; [reflexivity|].
+      rewrite (sumN_ext_in _ (fun _ => 1 + acost k)).
+      - rewrite sumN_const. reflexivity.
+      - intros p Hp. rewrite (Hvw cwp k p Hp), (Hnc k p Hp), (IH n p ltac:(lia) (Hcites k p Hp)). lia.
+    Qed.
+
+    Lemma paths_weight_layered D n inv : L D = [inv] -> (D + 2 <= n)%nat ->
+      paths_weight U C n inv = 1 + acost D.
+    Proof.
+      intros LD Hn. unfold paths_weight. destruct n as [|n]; [lia|]. cbn [cw]. unfold cw_body. cbn [sumN].
+      assert (Hin : In inv (L D)) by (rewrite LD; left; reflexivity).
+      pose proof (Hvw (cw U C n) D inv Hin) as V. rewrite LD in V. rewrite V, (Hnc D inv Hin).
+      rewrite (aw_layered (cw U C n) D n inv ltac:(lia) (Hcites D inv Hin)). lia.
+    Qed.
+  End LayeredWeight.
+
+End Layers.
+
 Section Layered.
   Variable U : link -> option token.
   Variable C : ctx.
@@ -407,9 +455,9 @@ Section Layered.
   Variable rc : rawcap.
   Variable L : nat -> list dlg.
 
-  Definition cites (d : dlg) (ps : list dlg) : Prop :=
-    exists t, tok U d = Some t /\ aligned U t (proofs_view U C d t) = ps.
-  Definition below (k : nat) : list dlg := match k with O => [] | S k' => L k' end.
+  Notation cites := (cites U C).
+  Notation below := (below L).
+  Notation acost := (acost L).
 
   Hypothesis Hcites : forall k d, In d (L k) -> cites d (below k).
   Hypothesis Hval : forall cp k d, In d (L k) ->
@@ -450,10 +498,6 @@ Section Layered.
   (* ---- every root fails: the whole DAG is explored ---- *)
   Section Failing.
     Hypothesis Hfail : forall k d, In d (L k) -> can_issue C c (iss_of U d) = false.
-
-    (* verifications made by Authorize for a match on a delegation that cites layer k-1 *)
-    Fixpoint acost (k : nat) : N :=
-      match k with O => 0 | S k' => N.of_nat (length (L k')) * (1 + acost k') end.
 
     Lemma auth_loop_fail rec (a : N) : forall l,
       (forall d, In d l -> can_issue C c (iss_of U d) = false /\
@@ -898,6 +942,21 @@ Section Family.
   Qed.
 End Family.
 
+Lemma LL_vw ok w d cwp k p : In p (LL ok w d k) ->
+  vw (wc_U (lay_world ok w d)) (wc_ctx (lay_world ok w d)) cwp p (LL ok w d k) = 1.
+Proof.
+  intros H. destruct (LL_tok ok w d k p H) as [Hk [l [aud [-> T]]]].
+  unfold vw, live, tok. cbn [d_link]. rewrite T.
+  destruct k as [|k]; [destruct ok|]; reflexivity.
+Qed.
+
+Lemma LL_nc ok w d k p : In p (LL ok w d k) ->
+  ncaps (wc_U (lay_world ok w d)) (wc_ctx (lay_world ok w d)) p = 1.
+Proof.
+  intros H. destruct (LL_tok ok w d k p H) as [Hk [l [aud [-> T]]]].
+  unfold ncaps, live, tok. cbn [d_link]. rewrite T. reflexivity.
+Qed.
+
 (* the harness capability on the family: the claimed capability derives unchanged *)
 Lemma std_rc : resolve_cap (std_desc c_add) cap_add rc_add = Some cap_add.
 Proof. vm_compute. reflexivity. Qed.
@@ -937,6 +996,23 @@ Proof.
   - split; [exists e; exact R|]. unfold verifications_at, run_at. cbn [wc_can lay_world wc_inv].
     etransitivity; [exact N|]. apply acost_geo. lia.
 Qed.
+
+(* the general upper bound is attained on this family: path weight = work, for every width
+   and depth (the weight does not look at who owns the resource, so it is the same for
+   succeeding roots, where the search stops early) *)
+Theorem lay_weight w d n (ok : bool) : (d + 2 <= n)%nat ->
+  paths_weight (wc_U (lay_world ok w d)) (wc_ctx (lay_world ok w d)) n (wc_inv (lay_world ok w d))
+  = geo (N.of_nat w) d.
+Proof.
+  intros Hn. cbn [wc_inv lay_world].
+  rewrite (paths_weight_layered _ _ (LL ok w d) (LL_cites ok w d) (LL_vw ok w d) (LL_nc ok w d) d n);
+    [apply acost_geo; lia | apply LL_top | exact Hn].
+Qed.
+
+Corollary lay_weight_tight w d n : (d + 2 <= n)%nat ->
+  verifications_at n (lay_world false w d) =
+  paths_weight (wc_U (lay_world false w d)) (wc_ctx (lay_world false w d)) n (wc_inv (lay_world false w d)).
+Proof. intros Hn. rewrite lay_weight by exact Hn. apply lay_fail_cost. exact Hn. Qed.
 
 (* succeeding roots: the first path succeeds; w*d + 1 verifications = one per delegation *)
 Theorem lay_ok_cost w d n : (1 <= w)%nat -> (d + 2 <= n)%nat ->
@@ -1002,3 +1078,38 @@ Proof.
   pose proof (geo_beats (N.of_nat w) ltac:(lia) d Hd).
   replace (N.of_nat (w * d + 1)) with (N.of_nat w * N.of_nat d + 1) by lia. lia.
 Qed.
+
+(* with the fixed fuel of run_world (40): depth 10 is enough for every width >= 2 *)
+Theorem quadratic_bound_refuted_family w : (2 <= w)%nat -> ~ quadratic_bound (lay_world false w 10).
+Proof.
+  intros Hw H. unfold quadratic_bound in H. rewrite verifications_at_fuel in H.
+  pose proof (lay_exceeds_quadratic w 10 fuel Hw ltac:(lia) ltac:(unfold fuel; lia)). lia.
+Qed.
+
+(* ------------------------------------------------------------------ *)
+(* sanity: the family agrees with ValidatorCost's (single-digit, fixed-fuel) family          *)
+
+Example families_agree_layered :
+  forallb (fun wd : nat * nat => let '(w, d) := wd in
+             (verifications (layered_world w d) =? verifications (lay_world false w d)) &&
+             (delegations (layered_world w d) =? delegations (lay_world false w d)))
+          [(1, 1); (1, 5); (2, 1); (2, 2); (2, 6); (3, 1); (3, 3); (3, 5); (4, 4)]%nat = true.
+Proof. vm_compute. reflexivity. Qed.
+
+Example families_agree_chains :
+  forallb (fun d => (verifications (chain_world d false) =? verifications (chain false d)) &&
+                    (verifications (chain_world d true) =? verifications (chain true d)) &&
+                    (verifications (chain true d) =? N.of_nat d + 1))
+          (seq 1 12) = true.
+Proof. vm_compute. reflexivity. Qed.
+
+(* the event traces, not only their lengths, coincide on a shared-proof instance *)
+Example families_agree_trace :
+  ev_verifies (snd (run_world (layered_world 2 3))) = ev_verifies (snd (run_world (lay_world false 2 3))) /\
+  ev_verifies (snd (run_world (chain_world 4 true))) = ev_verifies (snd (run_world (chain true 4))).
+Proof. split; vm_compute; reflexivity. Qed.
+
+(* the theorems instantiated and re-computed: 3^0 + ... + 3^5 = 364 at 16 delegations *)
+Example lay_3_5 : verifications (lay_world false 3 5) = 364 /\ geo 3 5 = 364 /\
+                  delegations (lay_world false 3 5) = 16.
+Proof. repeat split; vm_compute; reflexivity. Qed.
